@@ -28,6 +28,11 @@ def dotted(e: ast.AST) -> Optional[str]:
     return None
 
 
+def seq(n: ast.AST):
+    """Ordering key: textual position after inlining (see loader._set_parents)."""
+    return (getattr(n, "seq", 0), getattr(n, "lineno", 0), getattr(n, "col_offset", 0))
+
+
 def call_name(c: ast.Call) -> Optional[str]:
     return dotted(c.func)
 
@@ -35,7 +40,7 @@ def call_name(c: ast.Call) -> Optional[str]:
 def calls(node: ast.AST, shallow: bool = True) -> List[ast.Call]:
     it = walk_shallow(node) if shallow else ast.walk(node)
     out = [n for n in it if isinstance(n, ast.Call)]
-    out.sort(key=lambda n: (n.lineno, n.col_offset))
+    out.sort(key=seq)
     return out
 
 
@@ -54,7 +59,7 @@ def body_nodes(fn: loader.Func, shallow: bool = True) -> Iterator[ast.AST]:
 
 def func_calls(fn: loader.Func, shallow: bool = True) -> List[ast.Call]:
     out = [n for n in body_nodes(fn, shallow) if isinstance(n, ast.Call)]
-    out.sort(key=lambda n: (n.lineno, n.col_offset))
+    out.sort(key=seq)
     return out
 
 
